@@ -195,11 +195,16 @@ func readICCP(r binary.Reader, chunkLen uint32) ([]byte, error) {
 	}
 
 	// Extract ICCP.
-	data := make([]byte, ch.Length)
-	if _, err := io.ReadFull(r, data); err != nil {
+	// Read into a growing buffer so that memory use follows the data actually
+	// present rather than the declared chunk length.
+	data := bytes.Buffer{}
+	if _, err := io.CopyN(&data, r, int64(ch.Length)); err != nil {
+		if err == io.EOF {
+			err = io.ErrUnexpectedEOF
+		}
 		return nil, err
 	}
-	return data, nil
+	return data.Bytes(), nil
 }
 
 func verifySignature(r binary.Reader) error {
